@@ -1043,6 +1043,12 @@ func (stopComp) Corpus() [][]string {
 			"file g.a 20 3600", "file g.b 20 3590", "file g.c 20 3580", "file g.d 20 3570", "file g.e 20 3560",
 			"fault poll failed", "fault poll failed", "fault poll failed",
 			"stopat graceful 0", "sweep graceful 6"},
+		// ... with the receiver down for 1.5 s from the stop request on: the transmissions complete after the retry
+		// workers have left (they give up one second after any stop), then every file of the poll gets a failed verdict
+		{"conf threads=1 payload=32 chunk=0 order=alpha lastdelay=0 delete=0 attempts=50 scandelay=200",
+			"file g.a 20 3600", "file g.b 20 3590", "file g.c 20 3580", "file g.d 20 3570", "file g.e 20 3560",
+			"down 1500", "fault poll failed", "fault poll failed", "fault poll failed",
+			"stopat graceful 3"},
 		{"conf threads=2 payload=32 chunk=0 order=fifo lastdelay=0 delete=0 attempts=1 scandelay=200",
 			"file g.a 20 3600", "file g.b 20 3590", "file g.c 20 3580", "file h.d 20 3570", "file h.e 20 3560", "file k.f 20 3550",
 			"fault poll none", "fault poll none", "fault poll failed",
